@@ -563,7 +563,7 @@ def run_check(run, tier, seed, shard):
     except ImportError:
         run.count('seqcat_missing')
     # (d) random compositions
-    n = 120 if quick else 5000
+    n = 120 if quick else 25000
     for i in shard_slice(range(n), shard):
         if time.time() > deadline or run.too_many:
             break
@@ -580,7 +580,7 @@ def run_check(run, tier, seed, shard):
         check_interchangeable(run, des.dut, plan['name'], dict(workload='random', plan=plan))
     # (i) declared external black boxes: named modules handed in through createdStructures are not emitted and may be instantiated
     import py4hw.rtl_generation as rg
-    n = 40 if quick else 800
+    n = 40 if quick else 4000
     for i in shard_slice(range(n), shard):
         if time.time() > deadline or run.too_many:
             break
@@ -612,7 +612,7 @@ def run_check(run, tier, seed, shard):
                 run.violation('external_module_emitted', dict(clause='black box'), dict(workload='blackbox', plan=plan, module=m),
                               what='%s: module %s was declared external (createdStructures) but is defined in the text' % (plan['name'], m))
     # (h) histories: the text returned after an earlier request and a structural change must still be a closed design
-    n = 60 if quick else 1500
+    n = 60 if quick else 6000
     for i in shard_slice(range(n), shard):
         if time.time() > deadline or run.too_many:
             break
